@@ -110,6 +110,8 @@ def smt_wrap(tier):
     r, _ = q("witness: the wrapping branch is reachable under the stub assumptions (pinned lengths, all widths positive)",
              z3.And(*([w >= 1 for w in state["last_width"].values()] + pins)))
     if r != "sat":
+        if r != "unsat":
+            return {"verdict": "unknown", "message": "vacuity witness inconclusive (solver answered %s)" % r}
         return {"verdict": "error", "message": "vacuity witness failed: " + r, "detail": results}
     r, model = q("O3: the short-column loop ends within n+1 passes", ctx.unwind_fail)
     if r == "sat":
